@@ -154,11 +154,11 @@ def check(ctx):
         if e[0] == "const" and e[1] == 1:
             n_true += 1
             g1 = ka.must_pass_edges(site.bb, lib.switch_edges_on(ka, r"^discr\(self\)$", {"Enabled"}))
-            g2 = ka.must_pass_edges(site.bb, ka.guard_edges(lambda c, r, l: l == "true" and c[0] == "field" and c[2] == FLAG))
+            g2 = ka.must_pass_edges(site.bb, gs.guard(ka, lambda c, r, l: l == "true" and c[0] == "field" and c[2] == FLAG))
             ok = ok and g1 and g2
         elif not (e[0] == "const" and e[1] == 0):
             ok = False
-    t_edges = ka.guard_edges(lambda c, r, l: l == "true" and c[0] == "field" and c[2] == FLAG)
+    t_edges = gs.guard(ka, lambda c, r, l: l == "true" and c[0] == "field" and c[2] == FLAG)
     trues = [site.bb for site, e in gs.ret_exprs(ka) if e[0] == "const" and e[1] == 1]
     falses = [site.bb for site, e in gs.ret_exprs(ka) if e[0] == "const" and e[1] == 0]
     conv = bool(t_edges) and all(lib.count_range(ka, [t], ka.return_blocks(), falses) == (0, 0) and lib.count_range(ka, [t], ka.return_blocks(), trues) == (1, 1) for _, t in t_edges)
@@ -203,10 +203,10 @@ def check(ctx):
                 topic_e = gets[0][2][1]
                 # the exclusion test on the same topic element must dominate
                 if fn == "peer_added_to_mesh":
-                    excl = body.guard_edges(lambda cc, rr, ll: ll == "false" and cc[0] == "call" and re.search(r"slice::<impl \[T\]>::contains$|slice::contains$", strip_generics(cc[1])) is not None
+                    excl = gs.guard(body, lambda cc, rr, ll: ll == "false" and cc[0] == "call" and re.search(r"slice::<impl \[T\]>::contains$|slice::contains$", strip_generics(cc[1])) is not None
                                             and any(gs.is_arg(y, a_top) for y in mir.walk(cc[2][0])) and render(cc[2][1]) == render(topic_e) and gs.next_call_bb(cc[2][1]) == gs.next_call_bb(topic_e))
                 else:
-                    excl = body.guard_edges(lambda cc, rr, ll: cc[0] == "call" and ((ll == "true" and re.search(r"PartialEq(<[^>]*>)?>?::ne$|cmp::impls.*::ne$", strip_generics(cc[1])) is not None)
+                    excl = gs.guard(body, lambda cc, rr, ll: cc[0] == "call" and ((ll == "true" and re.search(r"PartialEq(<[^>]*>)?>?::ne$|cmp::impls.*::ne$", strip_generics(cc[1])) is not None)
                                                                                      or (ll == "false" and re.search(r"PartialEq(<[^>]*>)?>?::eq$|cmp::impls.*::eq$", strip_generics(cc[1])) is not None))
                                             and ((render(cc[2][0]) == render(topic_e) and gs.is_arg(cc[2][1], a_top)) or (render(cc[2][1]) == render(topic_e) and gs.is_arg(cc[2][0], a_top))))
                 head = gs.next_call_bb(topic_e)
@@ -357,7 +357,7 @@ def check(ctx):
             ctx.ob("batch", "handle_received_subscriptions: new_topics covers every topic whose mesh was updated before the call", whole, c.loc(), "new_topics = %s" % render(nt)[:160])
             ctx.ob("cover", "handle_received_subscriptions: notification names the subscribing peer", render(ce[2][0]) == render(me[2][1]), c.loc(), render(ce[2][0]))
             # reached after the loop on every path with a non-empty list
-            ne = hs.guard_edges(lambda cc, rr, ll: ll == "false" and cc[0] == "call" and re.search(r"Vec::is_empty$", strip_generics(cc[1])) is not None
+            ne = gs.guard(hs, lambda cc, rr, ll: ll == "false" and cc[0] == "call" and re.search(r"Vec::is_empty$", strip_generics(cc[1])) is not None
                                 and gs.has_call(gs.expand(hs, cc[2][0]), r"Iterator::collect$"))
             got = lib.count_range(hs, gs.edge_targets(ne), hs.return_blocks(), [c.bb]) if ne else None
             ctx.ob("cover", "handle_received_subscriptions: non-empty graft list => one peer_added_to_mesh", got == (1, 1), c.loc(), "on the !topics_joined.is_empty() edge: %s" % (got,))
@@ -538,7 +538,7 @@ def check(ctx):
                             holders.add(l)
         sw = [bi for bi in sorted(rp.live) if rp.switch_info(bi) and rp.switch_info(bi)[0][0] == "local" and rp.switch_info(bi)[0][1] in holders]
         first = sorted(set(sw) & rp.reachable(rp.succ[m.bb], stop_nodes=sw))
-        all_true = rp.guard_edges(lambda c, r, l: l == "true" and c[0] == "local" and c[1] in holders) | lib.switch_edges_on_site(rp, m, {"true"})
+        all_true = gs.guard(rp, lambda c, r, l: l == "true" and c[0] == "local" and c[1] in holders) | lib.switch_edges_on_site(rp, m, {"true"})
         t_edges = {(bi, t) for bi, t in all_true if bi in first} | lib.switch_edges_on_site(rp, m, {"true"})
         got = lib.count_range(rp, gs.edge_targets(t_edges), rp.return_blocks(), lib.bbs(cs)) if t_edges else None
         ok = got == (1, 1) and all(render(rp.site_expr(c)[2][0]) == render(me[2][1]) and ("HashMap::get_mut(self.mesh, %s)" % render(rp.site_expr(c)[2][1])) in render(me[2][0]) for c in cs)
